@@ -27,7 +27,7 @@ Definition wf_rec (r : rec) : Prop :=
   match r with
   | RTxn i d s => in_ity I64 i /\ (d = DEST_WAL \/ d = DEST_CHECKPOINT)
                   /\ (s = TXN_PREPARING \/ s = TXN_COMMITINTENDED \/ s = TXN_COMMITCOMPLETE)
-  | RTG b => (7 <= length b)%nat /\ Z.of_nat (length b) < 2 ^ 62
+  | RTG b => (8 <= length b)%nat /\ Z.of_nat (length b) < 2 ^ 62
   end.
 
 Definition ev_of (p' : nat) (r : rec) : ev :=
@@ -131,7 +131,8 @@ Proof.
   rewrite Elen.
   unfold size_z. rewrite Lbs.
   destruct (Z.ltb_spec (Z.of_nat (length body)) (1000 * Z.of_nat (length pre + (1 + 8 + length body + 16) + length suf))) as [_|Hc]; [|lia].
-  cbn [negb].
+  destruct (Z.ltb_spec (Z.of_nat (length body)) 8) as [Hc|_]; [lia|].
+  cbn [negb orb].
   destruct (Z.ltb_spec (Z.of_nat (length body)) 0) as [Hc|_]; [lia|].
   rewrite (file_read_full_mid bs ((pre ++ [byte_of_Z MID_TGDATA]) ++ l8) body (ck ++ suf))
     by (try lia; subst bs; rewrite ?app_length; cbn [length]; try lia; now rewrite <- !app_assoc).
@@ -246,8 +247,8 @@ Qed.
 
 (** [good] = status record ++ well-formed records, among them the intact transaction [body] (id t <> 0)
     with no checkpoint-commit record for an id >= t behind it; [junk] = arbitrary bytes whose frames
-    contain no checkpoint-commit >= t either (no_spurious_checkpoint, F9).  If the whole file has no panic
-    frame (F8), no duplicated TGDATA key, and its intact records replay, then t is applied. *)
+    contain no checkpoint-commit >= t either (no_spurious_checkpoint, F9).  If the whole file has no
+    duplicated TGDATA key, and its intact records replay, then t is applied. *)
 Theorem good_prefix_applied : forall fs rs owner r1 body r2 junk t,
   Forall wf_rec (r1 ++ RTG body :: r2) ->
   t = tg_id_of body -> t <> 0 ->
@@ -255,13 +256,12 @@ Theorem good_prefix_applied : forall fs rs owner r1 body r2 junk t,
   let good := rec_status fs rs owner ++ enc (r1 ++ RTG body :: r2) in
   let bs := good ++ junk in
   forallb (harmless t) (events md5 (length bs - length (r1 ++ RTG body :: r2)) bs (length good)) = true ->
-  no_panic_frames md5 bs = true ->
   NoDup (keys (frames md5 bs)) ->
   (forall q id b, intact_at md5 bs q id b ->
-     exists wts, ParseTGData b root = Ok (id, wts) /\ (wts = [] \/ apply_ok id wts = true)) ->
+     exists wts, parseTGData b root = Ok (id, wts) /\ (wts = [] \/ apply_ok id wts = true)) ->
   exists n, In (t, n) (r_applied (replay_bytes md5 root apply_ok bs)).
 Proof.
-  intros fs rs owner r1 body r2 junk t Hwf Ht Ht0 Hr2 good bs Hjunk Hnp Hnd Hall.
+  intros fs rs owner r1 body r2 junk t Hwf Ht Ht0 Hr2 good bs Hjunk Hnd Hall.
   pose proof (frames_good_prefix fs rs owner (r1 ++ RTG body :: r2) junk Hwf) as Hfr.
   cbv zeta in Hfr. fold good in Hfr. fold bs in Hfr.
   assert (Hsplit : forall l1 l2 pos, evs_of pos (l1 ++ l2) = evs_of pos l1 ++ evs_of (pos + length (enc l1)) l2).
@@ -270,7 +270,7 @@ Proof.
     - fold (enc l1). rewrite IH. rewrite app_length. cbn [app]. f_equal. f_equal. f_equal. lia. }
   rewrite Hsplit in Hfr. cbn [evs_of ev_of] in Hfr. rewrite <- Ht in Hfr.
   rewrite <- app_assoc in Hfr. cbn [app] in Hfr.
-  eapply (intact_framed_applied md5 root apply_ok bs (EvSkip 11 :: evs_of 11 r1)); [exact Hfr | exact Ht0 | exact Hnp | exact Hnd | | exact Hall].
+  eapply (intact_framed_applied md5 root apply_ok bs (EvSkip 11 :: evs_of 11 r1)); [exact Hfr | exact Ht0 | exact Hnd | | exact Hall].
   rewrite forallb_app. rewrite harmless_evs_of by exact Hr2. exact Hjunk.
 Qed.
 
@@ -283,10 +283,11 @@ Theorem good_prefix_applied_code0 : forall fs rs owner r1 body r2 junk t,
   let bs := good ++ junk in
   forallb (harmless t) (events md5 (length bs - length (r1 ++ RTG body :: r2)) bs (length good)) = true ->
   NoDup (keys (frames md5 bs)) ->
+  parseTGData body root <> Rejected ->
   r_code (replay_bytes md5 root apply_ok bs) = 0%nat ->
   exists n, In (t, n) (r_applied (replay_bytes md5 root apply_ok bs)).
 Proof.
-  intros fs rs owner r1 body r2 junk t Hwf Ht Ht0 Hr2 good bs Hjunk Hnd Hc0.
+  intros fs rs owner r1 body r2 junk t Hwf Ht Ht0 Hr2 good bs Hjunk Hnd Hdec Hc0.
   pose proof (frames_good_prefix fs rs owner (r1 ++ RTG body :: r2) junk Hwf) as Hfr.
   cbv zeta in Hfr. fold good in Hfr. fold bs in Hfr.
   assert (Hsplit : forall l1 l2 pos, evs_of pos (l1 ++ l2) = evs_of pos l1 ++ evs_of (pos + length (enc l1)) l2).
@@ -295,7 +296,7 @@ Proof.
     - fold (enc l1). rewrite IH. rewrite app_length. cbn [app]. f_equal. f_equal. f_equal. lia. }
   rewrite Hsplit in Hfr. cbn [evs_of ev_of] in Hfr. rewrite <- Ht in Hfr.
   rewrite <- app_assoc in Hfr. cbn [app] in Hfr.
-  eapply (intact_framed_applied_code0 md5 root apply_ok bs (EvSkip 11 :: evs_of 11 r1)); [exact Hfr | exact Ht0 | exact Hnd | | exact Hc0].
+  eapply (intact_framed_applied_code0 md5 root apply_ok bs (EvSkip 11 :: evs_of 11 r1)); [exact Hfr | exact Ht0 | exact Hnd | | exact Hdec | exact Hc0].
   rewrite forallb_app. rewrite harmless_evs_of by exact Hr2. exact Hjunk.
 Qed.
 
